@@ -16,7 +16,8 @@ RULE = ("Randomised histories against the real `garden nrepl` TCP server (a fres
         "interrupt flag, in the interrupt handler and before the final messages are sent; each 0 / 2 / 20 / 80 ms): evals that print 0..3000 numbered lines to stdout and "
         "stderr (with and without a trailing newline, so the periodic flusher and the final drain both carry data), "
         "evals that fail after printing, definitions, load-file, completions, lookup, describe, ls-sessions, "
-        "interrupt and close of sessions whose requests are all done, requests for unknown / closed sessions, unknown ops, requests without op. "
+        "interrupt and close of sessions whose requests are all done, close of a session whose requests may still be queued or running (each "
+        "still owes exactly one final `done`; its output is not asserted when it ends `interrupted`), requests for unknown / closed sessions, unknown ops, requests without op. "
         "Oracle per connection: every id gets exactly one message whose status contains `done`, and no message with "
         "that id arrives after it; the concatenation of an eval's `out` (`err`) chunks equals exactly the text the "
         "code prints (for failing evals: starts with it), and a successful eval carries its value; a name defined in "
@@ -49,7 +50,7 @@ def gen_conn(r, ci):
     prev_eval = False
     for i in range(n):
         k = r.weighted([(8, "eval_print"), (2, "eval_fail"), (3, "define"), (3, "probe"), (1, "load"), (1, "completions"),
-                        (1, "lookup"), (1, "describe"), (1, "ls"), (1, "interrupt_idle"), (1, "close"),
+                        (1, "lookup"), (1, "describe"), (1, "ls"), (1, "interrupt_idle"), (1, "close"), (1, "close_pending"),
                         (1, "unknown_session"), (1, "unknown_op"), (1, "no_op")])
         gap = r.choice([0, 0, 0, 1, 5, 30])
         st = {"k": k, "gap": gap, "sess": r.int(0, nsess - 1)}
@@ -194,6 +195,16 @@ def run_conn(port, ci, steps, result):
                 i = rid("int")
                 c.send({"op": "interrupt", "id": i, "session": sess})
                 out["sent"].append({"id": i, "kind": "other"})
+            elif k == "close_pending":
+                # close while requests of the session may still be queued or running: each of them must still get
+                # exactly one final `done`; what they print before they are stopped is not asserted
+                i = rid("closep")
+                for x in out["sent"]:
+                    if x.get("sess") == sess and x["id"] not in c.done:
+                        x["may_be_cut"] = True
+                c.send({"op": "close", "id": i, "session": sess})
+                closed.add(sess)
+                out["sent"].append({"id": i, "kind": "other"})
             elif k == "close":
                 i = rid("close")
                 c.send({"op": "close", "id": i, "session": sess})
@@ -264,6 +275,8 @@ def run_history(case, ctx) -> Res:
                             f"{what}: after done came {[m for k, m in mine if k > dones[0]][:3]}\n--- history\n{hist}", classes=cls)
             status = msgs[dones[0]].get("status") or []
             if "unknown-session" in status:
+                continue
+            if s.get("may_be_cut") and "interrupted" in status:
                 continue
             if s["kind"] in ("eval_print", "eval_fail"):
                 got_out = "".join(m.get("out", "") for _, m in mine)
